@@ -298,3 +298,110 @@ def effect_paths(stmts, is_event, max_paths=20000):
 
     seq(list(stmts), [], [])
     return out
+
+
+# ---------------------------------------------------------------- dominating conditions
+
+def _always_exits(stmts):
+    """does every path through the statement list leave (return / break / continue / diverge)?"""
+    for s in stmts:
+        s0 = hir.strip(s) if s.get('k') not in ('Let',) else s
+        k = s0.get('k')
+        if k in ('Ret', 'Break', 'Continue'):
+            return True
+        if hir.diverges(s0) and k not in ('If', 'Match', 'Block'):
+            return True
+        if k == 'If' and s0.get('else') is not None:
+            if _always_exits(hir.stmts_of(s0['then'])) and _always_exits(hir.stmts_of(s0['else'])):
+                return True
+        if k == 'Match' and s0['arms'] and all(_always_exits(hir.stmts_of(a['body'])) for a in s0['arms']):
+            return True
+        if k in ('Block', 'Labeled'):
+            if _always_exits(hir.stmts_of(s0 if k == 'Block' else s0['body'])):
+                return True
+    return False
+
+
+def _fallthrough_facts(s):
+    """conditions known to hold after statement s when control falls through it (early-exit idiom)"""
+    s0 = hir.strip(s)
+    if s0.get('k') != 'If':
+        if s0.get('k') == 'Let' and s0.get('els'):
+            return [('pat', s0['pat'], s0['init'], True)]
+        return []
+    then_exits = _always_exits(hir.stmts_of(s0['then']))
+    else_st = hir.stmts_of(s0['else']) if s0.get('else') else []
+    else_exits = bool(else_st) and _always_exits(else_st)
+    out = []
+    if then_exits and not else_exits:
+        alts = _split_cond(s0['cond'], False)
+        if len(alts) == 1:
+            out += alts[0]
+        # `else if` chains: facts from the else branch when it is a single If statement
+        if len(else_st) == 1:
+            out += _fallthrough_facts(else_st[0])
+    elif else_exits and not then_exits:
+        alts = _split_cond(s0['cond'], True)
+        if len(alts) == 1:
+            out += alts[0]
+    return out
+
+
+def dominating_conds(node, pm):
+    """Condition items (see Path) that hold whenever `node` is evaluated: enclosing if/else/match arms,
+    `&&`/`||` short-circuit position, and early exits in preceding statements of the enclosing blocks.
+    Facts established before a loop are kept inside it only if the loop cannot invalidate them — the
+    caller decides (loops crossed are reported as ('loop', node))."""
+    out = []
+    cur = node
+    while id(cur) in pm:
+        par, slot = pm[id(cur)]
+        k = par.get('k')
+        if k == 'If':
+            if slot == 'then':
+                alts = _split_cond(par['cond'], True)
+                if len(alts) == 1:
+                    out += alts[0]
+            elif slot == 'else':
+                alts = _split_cond(par['cond'], False)
+                if len(alts) == 1:
+                    out += alts[0]
+        elif k == 'Binary' and par['op'] == 'And' and slot == 'r':
+            alts = _split_cond(par['l'], True)
+            if len(alts) == 1:
+                out += alts[0]
+        elif k == 'Binary' and par['op'] == 'Or' and slot == 'r':
+            alts = _split_cond(par['l'], False)
+            if len(alts) == 1:
+                out += alts[0]
+        elif k == 'Match' and slot == 'arms':
+            pass
+        elif k == 'Block' and slot in ('stmts', 'expr'):
+            st = par['stmts'] + ([par['expr']] if par['expr'] is not None else [])
+            idx = None
+            for i, s in enumerate(st):
+                if s is cur:
+                    idx = i
+                    break
+            if idx is not None:
+                for s in st[:idx]:
+                    out += _fallthrough_facts(s)
+        elif k in ('For', 'While', 'Loop') and slot == 'body':
+            out.append(('loop', par))
+            if k == 'While':
+                alts = _split_cond(par['cond'], True)
+                if len(alts) == 1:
+                    out += alts[0]
+        elif k == 'Closure':
+            out.append(('closure', par))
+        elif 'pat' in par and 'body' in par and 'guard' in par and slot == 'body':
+            # match arm object
+            gp = pm.get(id(par))
+            if gp and gp[0].get('k') == 'Match':
+                out.append(('pat', par['pat'], gp[0]['scrut'], True))
+                if par.get('guard'):
+                    alts = _split_cond(par['guard'], True)
+                    if len(alts) == 1:
+                        out += alts[0]
+        cur = par
+    return out
